@@ -110,3 +110,68 @@ CHECKS["C03"] = {
         unit("./internal/storage/ledger", ["storage/c03.go"], "^Harness_C03_Commit_p3$", T, swaps=STORE_SWAPS, flags={"labels": "^C03:", "max-paths": 400000, "max-decisions": 6000}, timeout_s=7000),
     ],
 }
+
+CTRL_FILES = ["ctrl/dbmodel.go", "ctrl/lib.go", "ctrl/c25.go", "ctrl/ops.go", "ctrl/ops_gen.go"]
+CTRL_PKG = "./internal/controller/ledger"
+DBMODEL_ASSUME = [
+    "dbmodel (harness/ctrl/dbmodel.go) stands for the SQL store below the controller's Store interface: tables as Go values, transactional write sets applied on Commit and dropped on Rollback, autocommit on a non-transactional handle, unique keys (ledger,id), (ledger,reference), (ledger,idempotency_key), (ledger,address), non-transactional sequences, 'a failed statement aborts the transaction', transaction_date() constant inside a transaction. It is trusted, not verified (no PostgreSQL in the sandbox)",
+    "encoding/json is modelled as a JSON-tree (marshal/unmarshal by the documented rules, custom MarshalJSON/UnmarshalJSON executed symbolically); SHA-256 is exact on concrete content and an injective function on symbolic content",
+]
+OPS_LIST = "23 write requests covering all 7 log processors (create via postings / script with tx+account metadata / reference conflict / metadata override / bad script / no postings / forced overdraft; revert plain / at effective date / forced / insufficient / missing; save+delete transaction metadata (present, absent target, absent key); save+delete account metadata (existing, new account); insert schema)"
+
+
+def ctrl_units(modes_q, modes_t, labels, decisions=4000):
+    us = []
+    for tiers, modes in ((QT, modes_q), (T, modes_t)):
+        for m in modes:
+            us.append(unit(CTRL_PKG, CTRL_FILES, f"^Harness_{m}_", tiers, flags={"labels": labels, "max-decisions": decisions, "max-paths": 200000}, reach=["end"], timeout_s=1500 if tiers == QT else 7000))
+    return us
+
+
+CHECKS["C25"] = {
+    "level": "other",
+    "explanation": "A postings request goes through the real TxToScriptData, the real Numscript compiler and VM, the real createTransaction/forgeLog on the store model. Posting amounts are unbounded symbolic integers (fresh per posting) and every touched account starts from arbitrary symbolic volumes; the account/asset equality pattern is one of a set of shapes. z3 decides: the returned and the stored postings equal the submitted ones field by field and in order (zero amounts kept); the request fails iff the in-order fold takes a non-world source below zero, with the insufficient-funds error, never with force; a rejected request stores nothing.",
+    "bounds": {"quick": "10 posting-list shapes with symbolic amounts and balances (1-3 postings: single, received-then-spent, two from one source, self-posting, duplicate, two assets, to world, ping-pong; force on/off) + 14 concrete-amount shapes (zero, 2^64+5, 12 distinct accounts)", "thorough": "same"},
+    "outside": "posting lists outside the listed equality patterns and longer than 3 symbolic postings; Postings.Validate / API decoding of the request; the interpreter runtime",
+    "assumptions": COMMON_ASSUME + DBMODEL_ASSUME,
+    "units": [
+        unit(CTRL_PKG, CTRL_FILES, "^Harness_C25_", QT, flags={"labels": "^C25:", "max-decisions": 3000}, reach=["end"]),
+        unit(CTRL_PKG, CTRL_FILES, "^Harness_C25S_", QT, flags={"labels": "^C25:", "max-decisions": 3000}, reach=["end"]),
+    ],
+}
+
+CHECKS["C07"] = {
+    "level": "other",
+    "explanation": "Every write kind runs through the real DefaultController and logProcessor (forgeLog, forgeLogRetry, runTx, runLog, fetchLogWithIK) on the store model, from a committed history whose amounts are symbolic. Fault schedule: any one (thorough: any two) store call(s) of the operation — BeginTX, reads, every write, InsertLog, Commit — fails with a generic, deadlock or serialization error (the choice of call and kind are explored exhaustively; amounts stay symbolic). Decided: an operation that returns an error leaves the committed state (transactions, logs, volumes, accounts, metadata, moves, schemas) identical to the pre-state; DryRun=true leaves it identical as well — also when a store call fails and the retry path is taken — and returns the log type, postings, metadata and post-commit volumes that the same request returns as a real write on an identical ledger.",
+    "bounds": {"quick": OPS_LIST + "; history of 5 writes (3 transactions, 2 metadata writes) with symbolic amounts; <= 1 injected store failure per operation", "thorough": "<= 2 injected store failures per operation (concrete history)"},
+    "outside": "a crash of the process or connection in the middle of COMMIT (PostgreSQL atomicity is assumed); events (C31); more than 2 faults; histories other than the 5-write one",
+    "assumptions": COMMON_ASSUME + DBMODEL_ASSUME,
+    "units": ctrl_units(["OPS_wet", "OPS_wetfault", "OPS_dry", "OPS_dryfault", "SYM_wet", "SYM_dry", "SYM_wetfault", "SYM_dryfault"], ["OPS_wetfault2"], "^C07:"),
+}
+
+CHECKS["C08"] = {
+    "level": "other",
+    "explanation": "Same harnesses as C07, other assertions: a successful non-dry-run write appends exactly one log whose id is greater than every earlier id and equals the returned one (also after a deadlock retry); failed and dry-run writes append none (their state is unchanged, C07); and the payload alone determines the state: running the real importLog on the emitted log over a copy of the pre-state yields the same transactions (ids, postings, metadata, reference, timestamp, revert mark, post-commit volumes), volumes, accounts (address, first usage, metadata), moves and schemas as the live write did.",
+    "bounds": {"quick": OPS_LIST + "; symbolic amounts; <= 1 injected store failure", "thorough": "<= 2 injected failures"},
+    "outside": "log ids under concurrency (C16); hash chain (C09); insertion_date/updated_at stamps are not part of the replay relation; schema-carrying ledgers (chart default metadata) are covered under C29",
+    "assumptions": COMMON_ASSUME + DBMODEL_ASSUME,
+    "units": ctrl_units(["OPS_wet", "OPS_wetfault", "SYM_wet", "SYM_wetfault"], ["OPS_wetfault2"], "^C08:"),
+}
+
+CHECKS["C13"] = {
+    "level": "other",
+    "explanation": "Sequential half of exactly-once: each write kind is sent twice with one idempotency key through the real forgeLog/fetchLogWithIK/ComputeIdempotencyHash on the store model (symbolic amounts): the replay succeeds, is flagged as a hit, returns the original log id/type and transaction, and the committed state equals the state after the first request (also for a DryRun replay); a different input under the same key is rejected with ErrInvalidIdempotencyInput and has no effect; with one store failure injected into the replay the caller gets a hit or the injected/retryable error, never a business error, and still no second effect.",
+    "bounds": {"quick": OPS_LIST + "; 2-4 requests per key; <= 1 injected store failure in the replay", "thorough": "same"},
+    "outside": "concurrent requests sharing a key (needs the thread scheduler on the store model: not covered yet)",
+    "assumptions": COMMON_ASSUME + DBMODEL_ASSUME,
+    "units": ctrl_units(["OPS_ik", "OPS_ikfault", "SYM_ik", "SYM_ikfault"], [], "^C13:"),
+}
+
+CHECKS["C02"] = {
+    "level": "other",
+    "explanation": "Controller half of the volume invariant: after the symbolic 5-write history and one more request of each kind (successful, failed, reverting), every stored (account, asset) volume equals the fold of the postings of the committed transactions (reverts included) and every posting is reflected; failed and dry-run writes change no volume. The fold is recomputed independently from the committed transaction list.",
+    "bounds": {"quick": OPS_LIST + "; symbolic amounts", "thorough": "same"},
+    "outside": "the SQL of the upsert and of the read queries (accounts, volumes, aggregated balances) — not encoded; the store model adds VolumeUpdates() to the rows",
+    "assumptions": COMMON_ASSUME + DBMODEL_ASSUME,
+    "units": ctrl_units(["OPS_fold", "SYM_fold", "SYM_wet", "SYM_dry"], [], "^C02:"),
+}
